@@ -8,6 +8,7 @@ import (
 	"io"
 	"io/fs"
 	"math/rand/v2"
+	"sort"
 	"strings"
 	"testing"
 	"time"
@@ -67,13 +68,16 @@ func restoreTo(st *Stack, from string) ([]byte, error) {
 func init() {
 	Register(&Check{
 		ID: "C03", Level: "exploration", Tech: "deterministic simulation over the configuration matrix: real pipeline end to end with simulated short-read sources, both write caches, restart (reopen) before reading, simulated clock for signature times",
-		Rule:      "cell = (compression x level x encryption x signature x record size x write cache) drawn per run from the full 8x3x3x3x7x2 matrix; per cell 3 contents from size classes {0,1,511,512,513,record-1,record,record+1,several records} x {zeros,text,random}; written through the filesystem (write cache) and through a batched Operations.Archive with short-read sources, one content replaced by an update; after a reopen every content is read back through File.Read, Operations.Restore and recovery.Fetch by position and Stat.Size must equal the length; plus non-regular (tape) codec parameters at the compression/tar-writer level; non-trivial = a non-plain cell with at least one non-empty content; distinct by cell",
+		Rule:      "cell = (compression x level x encryption x signature x record size x write cache) drawn per run from the full 8x3x3x3x7x2 matrix; per cell 3 contents from size classes {0,1,511,512,513,record-1,record,record+1,several records} x {zeros,text,random}; written through the filesystem (write cache) and through a batched Operations.Archive with short-read sources, one content replaced by an update; after a reopen every content is read back through File.Read, Operations.Restore and recovery.Fetch by position and Stat.Size must equal the length; in half of the runs every non-empty content is read again through File.Read and Operations.Restore with one injected drive read error at a seeded position (a read may fail, it never ends cleanly with other bytes); plus non-regular (tape) codec parameters at the compression/tar-writer level; non-trivial = a non-plain cell with at least one non-empty content; distinct by cell",
 		QuickRuns: 800, QuickSecs: 70, ThoroughRuns: 12000, ThoroughSecs: 1700,
 		Assumptions: []string{"the tape drive itself is not simulated: DriveIsRegular=false is exercised only at the codec / tar-writer parameter level", "configuration x input sampling riding on the simulator for clock, randomness, short reads, restart and crash supervision"},
 		Gen: func(r *rand.Rand, tier string, relax Relax) *Case {
 			c := &Case{Cfg: GenConfig(r, 0.03), P: map[string]int64{}, S: map[string]string{}}
 			c.P["chunk"] = int64([]int{0, 1, 7, 100, 511, 4096}[r.IntN(6)])
 			c.P["sleep"] = int64([]int{0, 1, 3600, 86400 * 400, 86400 * 365 * 20}[r.IntN(5)])
+			if r.Float64() < 0.5 {
+				c.P["rfault"] = int64(1 + r.IntN(1000))
+			}
 			for i, d := range contentClasses(r, c.Cfg.RecordSize) {
 				c.Ops = append(c.Ops, Op{K: "content", P: fmt.Sprintf("/f%d", i), D: d})
 			}
@@ -187,6 +191,62 @@ func evalC03(t *testing.T, c *Case, st *Stats, relax Relax) *Violation {
 				return mk("fetch-differs", fmt.Sprintf("%s: wrote %s, recovery.Fetch returns %s", p, sumOf(b), sumOf(got)))
 			}
 			st.Add("roundtrips_checked", 3)
+		}
+		// 4b. the same read-back while the drive fails once: a read may fail, it never ends
+		// cleanly with anything but the bytes that were written
+		if rf := int(c.Param("rfault", 0)); rf > 0 {
+			var names []string
+			for p, b := range want {
+				if len(b) > 0 {
+					names = append(names, p)
+				}
+			}
+			sort.Strings(names)
+			dev := x.W.Dev
+			for _, p := range names {
+				b := want[p]
+				for _, via := range []string{"File.Read", "Operations.Restore"} {
+					read := func() ([]byte, error) {
+						if via == "File.Read" {
+							r := x.Ex.Do(Op{K: "readfile", P: p})
+							if r.Class != "ok" {
+								return r.Data, errors.New(r.Err)
+							}
+							return r.Data, nil
+						}
+						return restoreTo(stk, p)
+					}
+					dev.ResetCounts()
+					dev.SetPlan(nil)
+					if _, err := read(); err != nil {
+						dev.Enabled = false
+						return mk("read-fails", fmt.Sprintf("%s via %s: %v", p, via, err))
+					}
+					n := dev.Snapshot()["drive.read"]
+					if n == 0 {
+						dev.Enabled = false
+						continue
+					}
+					k := 1 + (rf+len(p))%n
+					dev.ResetCounts()
+					before := dev.Fired["drive.read"]
+					dev.SetPlan([]Fault{{Seam: "drive.read", K: k}})
+					got, err := read()
+					fired := dev.Fired["drive.read"] - before
+					dev.Enabled = false
+					dev.SetPlan(nil)
+					dev.Enabled = false
+					st.Add("fired_drive.read", int64(fired))
+					if err != nil {
+						st.Add("faulted_reads_failed", 1)
+						continue
+					}
+					if !bytes.Equal(got, b) {
+						return mk("read-under-fault-differs", fmt.Sprintf("%s: the drive failed at its read %d of %d; %s ended without an error and returned %s, written was %s", p, k, n, via, sumOf(got), sumOf(b)))
+					}
+					st.Add("faulted_reads_exact", 1)
+				}
+			}
 		}
 		// 5. non-regular (tape) codec parameters
 		if v := tapeCodecRoundTrip(c, st, want); v != nil {
